@@ -464,9 +464,20 @@ class Cluster:
         if rng.random() < 0.25:
             data = PM.rich_payload(tok)
             self.ctx.count('emits_with_class_valued_payload')
+        # the application's next statement after the emit changes who is in
+        # the addressed room (same coroutine, nothing awaited in between): a
+        # single server has delivered by then
+        then = None
+        if not self.delayed and via < self.nh and times == 1 and \
+                cb is None and rng.random() < 0.3:
+            then = self.pick_follow_up(ns, to, want, via)
+        info['then'] = then
         try:
             for _ in range(times):
-                if via == self.nh:
+                if then is not None:
+                    self.hstep(via, ['emit', tok, to, skip, ns, cb, data,
+                                     then])
+                elif via == self.nh:
                     kw = dict(namespace=ns, room=to, skip_sid=skip)
                     if self.kind == 'async':
                         self.hosts[0].d.run(self.wo.emit(
@@ -483,8 +494,57 @@ class Cluster:
                         (['twice'] if times == 2 else []))
         self.snapshot()
         self.ctx.count('emits')
+        if then is not None:
+            self.apply_follow_up(then, via, info['n0'] + 1)
         if via == self.nh:
             self.ctx.count('emits_via_write_only')
+
+    def pick_follow_up(self, ns, to, want, via):
+        rng = self.rng
+        local = sorted(s for s in want if self.owner.get(s, (None,))[0] == via)
+        pool = local if local and rng.random() < 0.7 else sorted(want)
+        is_room = isinstance(to, (str, int)) and \
+            not self.model.connected(to, ns)
+        k = rng.random()
+        if k < 0.3 and pool:
+            return ['sdisc', rng.choice(pool), ns]
+        if k < 0.55 and pool and is_room:
+            return ['leave', rng.choice(pool), to, ns]
+        if k < 0.7 and is_room:
+            return ['close_room', to, ns]
+        if is_room:
+            outsiders = sorted(s for s, n in self.model.all_sids()
+                               if n == ns and s not in want and
+                               to not in self.model.rooms(s, ns))
+            if outsiders:
+                return ['enter', rng.choice(outsiders), to, ns]
+        return None
+
+    def apply_follow_up(self, then, g, idx):
+        """Book-keeping of the membership change that followed an emit."""
+        kind = then[0]
+        idx = idx if len(self.chan.log) > idx else None
+        if kind == 'sdisc':
+            sid, ns = then[1], then[2]
+            if self.model.connected(sid, ns):
+                self.model.disconnect(sid, ns)
+                self.dead.append((sid, self.owner.pop(sid)))
+                self.ctx.count('disconnects')
+            self.member_ops.append((self.clock, 'sdisc', sid, ns, None, idx,
+                                    g))
+        elif kind in ('leave', 'enter'):
+            sid, room, ns = then[1:4]
+            (self.model.leave if kind == 'leave' else self.model.enter)(
+                sid, ns, room)
+            self.member_ops.append((self.clock, kind, sid, ns, room, idx, g))
+        else:
+            room, ns = then[1], then[2]
+            self.model.close(room, ns)
+            self.member_ops.append((self.clock, 'close_room', None, ns, room,
+                                    idx, g))
+        self.ops.append(['then'] + list(then))
+        self.snapshot()
+        self.ctx.count('emits_followed_at_once_by_' + kind)
 
     def do_acks(self):
         """Clients acknowledge the events that carried an id."""
@@ -770,16 +830,19 @@ def run(ctx):
     # fresh hosts whose first connections arrive together (threaded server)
     from checks import c07_init
     ctx.require('fresh_host_cases', 3)
+    ctx.require('clientless_host_cases', 10)
     k = 0
     while not ctx.out_of_time() and not ctx.too_many_violations():
         run_case(ctx, k)
         if k % 60 == 0:
             c07_init.run_case(ctx, k // 60 + ctx.shard * 10 ** 5)
+        if k % 20 == 7:
+            c07_init.run_clientless_case(ctx, k // 20 + ctx.shard * 10 ** 5)
         k += 1
 
 
 def replay(ctx, w):
-    if w['witness'].get('part') == 'fresh_host':
+    if w['witness'].get('part') in ('fresh_host', 'clientless_host'):
         from checks import c07_init
-        return c07_init.run_case(ctx, w['witness']['case_index'])
+        return c07_init.replay(ctx, w)
     run_case(ctx, w['witness']['case_index'])
